@@ -25,9 +25,22 @@ Definition sumwN (cs : list (N * N)) : N := fold_right (fun c acc => snd c + acc
 
 Definition MINK : N := zN (nth 0 GenTDigest.LIT_make 0%Z).
 Definition tdb_new (k : N) : tdb := mkTdb k false PINF NINF [] 0 [].
+(* TDigestMut::make: assert!(k >= 10) (a panic site: Stuck); a digest that holds no value starts from
+   +inf / -inf whatever the image announced (repair ec17cff) *)
+Definition tdb_make (k : N) (rv : bool) (mn mx : N) (cs : list (N * N)) (cw : N) (buf : list N) : outcome tdb :=
+  if k <? MINK then Stuck else
+  match cs, buf with
+  | [], [] => Ok (mkTdb k rv PINF NINF cs cw buf)
+  | _, _ => Ok (mkTdb k rv mn mx cs cw buf)
+  end.
 Definition tdb_total (s : tdb) : N := b_cw s + N.of_nat (length (b_buf s)).
 Definition tdb_is_empty (s : tdb) : bool := match b_cs s, b_buf s with [], [] => true | _, _ => false end.
-Definition tdb_is_single (s : tdb) : bool := tdb_total s =? 1.
+(* is_single_value() (repair of the round trip of one-sample images): the single-value form stores
+   ONE number, so it stands for a digest only when that number is the sample, min and max at once
+   (bit for bit); any other digest of total weight 1 -- reachable only by deserializing an image --
+   is written in the general form *)
+Definition tdb_is_single (s : tdb) : bool :=
+  (tdb_total s =? 1) && (b_min s =? b_max s) && match b_cs s with c :: _ => fst c =? b_min s | [] => true end.
 
 Definition F_EMPTY : N := zN GenTDigest.FLAGS_IS_EMPTY.
 Definition F_SINGLE : N := zN GenTDigest.FLAGS_IS_SINGLE_VALUE.
@@ -44,7 +57,7 @@ Definition enc_flags (s : tdb) : N :=
 Definition enc_centroid (c : N * N) : list N := le_bytes 8 (fst c) ++ le_bytes 8 (snd c).
 
 Definition tdb_enc (s : tdb) : list N :=
-  [ (if tdb_total s <=? 1 then PRE1 else PRE2); SERVER; FAMID ] ++ le_bytes 2 (b_k s) ++ [enc_flags s] ++ le_bytes 2 0 ++
+  [ (if tdb_is_empty s || tdb_is_single s then PRE1 else PRE2); SERVER; FAMID ] ++ le_bytes 2 (b_k s) ++ [enc_flags s] ++ le_bytes 2 0 ++
   (if tdb_is_empty s then []
    else if tdb_is_single s then le_bytes 8 (b_min s)
    else le_bytes 4 (N.of_nat (length (b_cs s))) ++ le_bytes 4 0 ++ le_bytes 8 (b_min s) ++ le_bytes 8 (b_max s) ++
@@ -121,7 +134,7 @@ Definition tdb_dec_compat (bs : list N) : outcome tdb :=
     let n := fst pn in
     if N.of_nat (length (snd pn)) <? n * 16 then Err else        (* payload check before with_capacity *)
     obind (read_compat false (N.to_nat n) (snd pn) 0) (fun r =>
-    Ok (mkTdb k false (fst pmin) (fst pmax) (fst r) (snd r) []))))))
+    tdb_make k false (fst pmin) (fst pmax) (fst r) (snd r) [])))))
   else if ty =? COMPAT_FLOAT then
     obind (rd_be 8 (snd pt)) (fun pmin =>
     obind (rd_be 8 (snd pmin)) (fun pmax =>
@@ -132,7 +145,7 @@ Definition tdb_dec_compat (bs : list N) : outcome tdb :=
     obind (rd_be 4 (snd pk)) (fun pu =>                           (* <unused>: two shorts *)
     obind (rd_be 2 (snd pu)) (fun pn =>
     obind (read_compat true (N.to_nat (fst pn)) (snd pn) 0) (fun r =>
-    Ok (mkTdb k false (fst pmin) (fst pmax) (fst r) (snd r) [])))))))
+    tdb_make k false (fst pmin) (fst pmax) (fst r) (snd r) []))))))
   else Err).
 
 Definition tdb_dec (is_f32 : bool) (bs : list N) : outcome tdb :=
@@ -153,12 +166,12 @@ Definition tdb_dec (is_f32 : bool) (bs : list N) : outcome tdb :=
   let is_single := negb (N.land flags F_SINGLE =? 0) in
   if negb (pre =? (if is_empty || is_single then PRE1 else PRE2)) then Err else
   obind (rd_le 2 (snd pflags)) (fun punused =>
-  if is_empty then Ok (tdb_new k) else
+  if is_empty then tdb_make k false PINF NINF [] 0 [] else
   let rv := negb (N.land flags F_REV =? 0) in
   if is_single then
     obind (rd_float_le is_f32 (snd punused)) (fun pv =>
     let v := fst pv in
-    if negb (finite_ok v) then Err else Ok (mkTdb k rv v v [(v, 1)] 1 []))
+    if negb (finite_ok v) then Err else tdb_make k rv v v [(v, 1)] 1 [])
   else
     obind (rd_le 4 (snd punused)) (fun pnc =>
     obind (rd_le 4 (snd pnc)) (fun pnb =>
@@ -172,21 +185,87 @@ Definition tdb_dec (is_f32 : bool) (bs : list N) : outcome tdb :=
     let '(cs, cw, rest) := r in
     if U64MAX <? cw + nb then Err else                            (* total_weight() must not overflow *)
     obind (read_values is_f32 (N.to_nat nb) rest) (fun rv' =>
-    Ok (mkTdb k rv (fst pmin) (fst pmax) cs cw (fst rv')))))))))))))).
+    tdb_make k rv (fst pmin) (fst pmax) cs cw (fst rv'))))))))))))).
 
-(* Bytes requested by the Vec::with_capacity calls that are sized from the image (own format:
-   Vec<Centroid> 16 bytes per announced centroid, Vec<f64> 8 per announced buffered value; compat
-   double: 16 per centroid): they are reached only when the payload check has passed, i.e. when the
-   announced items are present in the input.  (compat float announces at most 65535 centroids;
-   make() reserves 48 * (2k + fudge) bytes, a function of the configuration k only.) *)
-Definition tdb_requests (is_f32 : bool) (bs : list N) : N :=
-  if nth 2 bs 0 =? FAMID then
-    let vsz := if is_f32 then 4 else 8 in
-    let nc := le_val (firstn 4 (skipn 8 bs)) in
-    let nb := le_val (firstn 4 (skipn 12 bs)) in
-    let rem := N.of_nat (length bs) - (16 + vsz + vsz) in
-    if rem <? nc * (vsz + vsz) + nb * vsz then 0 else 16 * nc + 8 * nb
+(* ---------------- the same readers, reporting what they ask the allocator for ----------------
+   [tdb_dec_req] is [tdb_dec] with the sizes of the image-sized Vec::with_capacity calls added up
+   (16 bytes per Centroid, 8 per buffered f64) at the points where the crate makes them -- after the
+   payload check in the DataSketches and reference-double readers, before any check in the reference
+   float reader (its count is a u16).  Its outcome is proved equal to tdb_dec's
+   (Proofs/TDigestCodec.v: tdb_dec_req_outcome).  make()'s reservations (48 * (2k + fudge) bytes)
+   depend on the configuration k only and are not counted. *)
+Definition obind2 {A B} (x : outcome A) (f : A -> outcome B * N) : outcome B * N :=
+  match x with Ok a => f a | Err => (Err, 0) | Stuck => (Stuck, 0) end.
+Definition with_req {B} (req : N) (r : outcome B) : outcome B * N := (r, req).
+
+Definition tdb_dec_compat_req (bs : list N) : outcome tdb * N :=
+  obind2 (rd_be 4 bs) (fun pt =>
+  let ty := fst pt in
+  if ty =? COMPAT_DOUBLE then
+    obind2 (rd_be 8 (snd pt)) (fun pmin =>
+    obind2 (rd_be 8 (snd pmin)) (fun pmax =>
+    if is_nan64 (fst pmin) || is_nan64 (fst pmax) then (Err, 0) else
+    obind2 (rd_be 8 (snd pmax)) (fun pk =>
+    let k := uint_of_f64 U16MAX (fst pk) in
+    if k <? MINK then (Err, 0) else
+    obind2 (rd_be 4 (snd pk)) (fun pn =>
+    let n := fst pn in
+    if N.of_nat (length (snd pn)) <? n * 16 then (Err, 0) else
+    with_req (16 * n)
+      (obind (read_compat false (N.to_nat n) (snd pn) 0) (fun r =>
+       tdb_make k false (fst pmin) (fst pmax) (fst r) (snd r) []))))))
+  else if ty =? COMPAT_FLOAT then
+    obind2 (rd_be 8 (snd pt)) (fun pmin =>
+    obind2 (rd_be 8 (snd pmin)) (fun pmax =>
+    if is_nan64 (fst pmin) || is_nan64 (fst pmax) then (Err, 0) else
+    obind2 (rd_be 4 (snd pmax)) (fun pk =>
+    let k := uint_of_f64 U16MAX (f64_of_f32 (fst pk)) in
+    if k <? MINK then (Err, 0) else
+    obind2 (rd_be 4 (snd pk)) (fun pu =>
+    obind2 (rd_be 2 (snd pu)) (fun pn =>
+    with_req (16 * fst pn)
+      (obind (read_compat true (N.to_nat (fst pn)) (snd pn) 0) (fun r =>
+       tdb_make k false (fst pmin) (fst pmax) (fst r) (snd r) [])))))))
+  else (Err, 0)).
+
+Definition tdb_dec_req (is_f32 : bool) (bs : list N) : outcome tdb * N :=
+  obind2 (rd_le 1 bs) (fun ppre =>
+  obind2 (rd_le 1 (snd ppre)) (fun pver =>
+  obind2 (rd_le 1 (snd pver)) (fun pfam =>
+  let pre := fst ppre in let ver := fst pver in let fam := fst pfam in
+  if negb (fam =? FAMID) then
+    (if (pre =? 0) && (ver =? 0) && (fam =? 0) then tdb_dec_compat_req bs else (Err, 0))
   else
-    let n := le_val (rev (firstn 4 (skipn 28 bs))) in
-    let rem := N.of_nat (length bs) - 32 in
-    if rem <? n * 16 then 0 else 16 * n.
+  if negb (ver =? SERVER) then (Err, 0) else
+  obind2 (rd_le 2 (snd pfam)) (fun pk =>
+  let k := fst pk in
+  if k <? MINK then (Err, 0) else
+  obind2 (rd_le 1 (snd pk)) (fun pflags =>
+  let flags := fst pflags in
+  let is_empty := negb (N.land flags F_EMPTY =? 0) in
+  let is_single := negb (N.land flags F_SINGLE =? 0) in
+  if negb (pre =? (if is_empty || is_single then PRE1 else PRE2)) then (Err, 0) else
+  obind2 (rd_le 2 (snd pflags)) (fun punused =>
+  if is_empty then (tdb_make k false PINF NINF [] 0 [], 0) else
+  let rv := negb (N.land flags F_REV =? 0) in
+  if is_single then
+    obind2 (rd_float_le is_f32 (snd punused)) (fun pv =>
+    let v := fst pv in
+    if negb (finite_ok v) then (Err, 0) else (tdb_make k rv v v [(v, 1)] 1 [], 0))
+  else
+    obind2 (rd_le 4 (snd punused)) (fun pnc =>
+    obind2 (rd_le 4 (snd pnc)) (fun pnb =>
+    obind2 (rd_float_le is_f32 (snd pnb)) (fun pmin =>
+    obind2 (rd_float_le is_f32 (snd pmin)) (fun pmax =>
+    if is_nan64 (fst pmin) || is_nan64 (fst pmax) then (Err, 0) else
+    let nc := fst pnc in let nb := fst pnb in
+    let vsz := if is_f32 then 4 else 8 in
+    if N.of_nat (length (snd pmax)) <? nc * (vsz + vsz) + nb * vsz then (Err, 0) else
+    with_req (16 * nc + 8 * nb)
+      (obind (read_centroids is_f32 (N.to_nat nc) (snd pmax) 0) (fun r =>
+       let '(cs, cw, rest) := r in
+       if U64MAX <? cw + nb then Err else
+       obind (read_values is_f32 (N.to_nat nb) rest) (fun rv' =>
+       tdb_make k rv (fst pmin) (fst pmax) cs cw (fst rv')))))))))))))).
+
+Definition tdb_requests (is_f32 : bool) (bs : list N) : N := snd (tdb_dec_req is_f32 bs).
